@@ -207,7 +207,7 @@ pub fn produce(r: &mut Rng, out: &mut String, b: &str, t: &[(u32, u32)], which: 
                 writeln!(out, "new {}", b).unwrap();
                 for &(s, l) in t {
                     if l > 3 {
-                        writeln!(out, "insert_range {} in:{} ex:{}", b, s, s as u64 + l as u64).unwrap();
+                        writeln!(out, "insert_range {} in:{} in:{}", b, s, s as u64 + l as u64 - 1).unwrap();
                     } else {
                         for i in 0..l {
                             writeln!(out, "push {} {}", b, s + i).unwrap();
@@ -229,10 +229,10 @@ pub fn produce(r: &mut Rng, out: &mut String, b: &str, t: &[(u32, u32)], which: 
                     // two overlapping pieces
                     let a_end = s as u64 + (2 * l as u64) / 3;
                     let b_start = s as u64 + l as u64 / 3;
-                    writeln!(out, "insert_range {} in:{} ex:{}", b, b_start, s as u64 + l as u64).unwrap();
-                    writeln!(out, "insert_range {} in:{} ex:{}", b, s, a_end).unwrap();
+                    writeln!(out, "insert_range {} in:{} in:{}", b, b_start, s as u64 + l as u64 - 1).unwrap();
+                    writeln!(out, "insert_range {} in:{} in:{}", b, s, a_end - 1).unwrap();
                 } else {
-                    writeln!(out, "insert_range {} in:{} ex:{}", b, s, s as u64 + l as u64).unwrap();
+                    writeln!(out, "insert_range {} in:{} in:{}", b, s, s as u64 + l as u64 - 1).unwrap();
                 }
             }
             "sparse-then-overlapping-ranges"
@@ -388,7 +388,7 @@ pub fn produce(r: &mut Rng, out: &mut String, b: &str, t: &[(u32, u32)], which: 
             // clone of a value built by ranges, after the destination held something else
             writeln!(out, "new b9").unwrap();
             for &(s, l) in t {
-                writeln!(out, "insert_range b9 in:{} ex:{}", s, s as u64 + l as u64).unwrap();
+                writeln!(out, "insert_range b9 in:{} in:{}", s, s as u64 + l as u64 - 1).unwrap();
             }
             // the destination holds something else first: chunks of either kind at the same keys / positions as the
             // source's chunks, with different cardinalities (Clone::clone_from reuses the destination's buffers)
@@ -443,10 +443,23 @@ pub fn gen_case(r: &mut Rng, out: &mut String) {
     writeln!(out, "expect true").unwrap();
     writeln!(out, "dump b0").unwrap();
     writeln!(out, "dump b1").unwrap();
-    // a one-element difference must be visible
-    if let Some(&(s, _)) = t.first() {
-        writeln!(out, "remove b1 {}", s).unwrap();
+    // a one-element difference must be visible, WHEREVER the element sits: the smallest value, the largest value (the other
+    // side is then a prefix of this one), the end of a middle run, one value added above the maximum / below the minimum
+    if let (Some(&(s, _)), Some(&(ls, ll))) = (t.first(), t.last()) {
+        let last = ls as u64 + ll as u64 - 1;
+        let mid = t[t.len() / 2];
+        let v = match r.below(6) {
+            0 | 1 => ("remove", last),
+            2 => ("remove", s as u64),
+            3 => ("remove", mid.0 as u64 + mid.1 as u64 - 1),
+            4 if last < u32::MAX as u64 => ("insert", last + 1 + *r.pick(&[0u64, 1, 5000]).min(&(u32::MAX as u64 - last - 1))),
+            _ if s > 0 => ("insert", s as u64 - 1),
+            _ => ("remove", s as u64),
+        };
+        writeln!(out, "{} b1 {}", v.0, v.1).unwrap();
         writeln!(out, "eq b0 b1").unwrap();
+        writeln!(out, "expect false").unwrap();
+        writeln!(out, "eq b1 b0").unwrap();
         writeln!(out, "expect false").unwrap();
     }
 }
